@@ -434,8 +434,9 @@ func (n *pkgNorm) lineDir(pos token.Pos) string {
 // ---------------------------------------------------------------------------
 
 type callee struct {
-	decl *ast.FuncDecl
-	obj  *types.Func
+	decl *ast.FuncDecl // for a function literal: a synthetic declaration around its type and body
+	obj  *types.Func   // nil for a function literal
+	lit  *ast.FuncLit  // set when the callee is an immediately-invoked literal produced by argument substitution
 	key  string
 	why  string // non-empty: not inlineable
 }
@@ -477,9 +478,6 @@ func (n *pkgNorm) round() map[string][]edit {
 			cands[obj] = c
 		}
 	}
-	if len(cands) == 0 {
-		return nil
-	}
 	// recursion among candidates
 	graph := map[*types.Func][]*types.Func{}
 	for obj, c := range cands {
@@ -515,6 +513,20 @@ func (n *pkgNorm) round() map[string][]edit {
 			call, ok := x.(*ast.CallExpr)
 			if !ok {
 				return true
+			}
+			// ((func(...) {...}))(args): a literal substituted for a function-typed parameter (see funcArgSubst)
+			if p1, ok := call.Fun.(*ast.ParenExpr); ok {
+				if p2, ok := p1.X.(*ast.ParenExpr); ok {
+					if lit, ok := p2.X.(*ast.FuncLit); ok {
+						fd := &ast.FuncDecl{Name: ast.NewIdent("literal"), Type: lit.Type, Body: lit.Body}
+						c := &callee{decl: fd, lit: lit, key: n.pk.PkgPath + "\t(function literal)"}
+						c.why = n.ineligible(fd)
+						if c.why == "" {
+							sites = append(sites, site{call, c})
+						}
+						return true
+					}
+				}
 			}
 			fn := n.staticCallee(call)
 			if fn == nil {
@@ -863,7 +875,15 @@ func (n *pkgNorm) inlineSite(call *ast.CallExpr, c *callee) ([]edit, ast.Stmt, s
 		return nil, nil, why
 	}
 	// ---- callee signature
-	sig := c.obj.Type().(*types.Signature)
+	var sig *types.Signature
+	if c.obj != nil {
+		sig = c.obj.Type().(*types.Signature)
+	} else if c.lit != nil {
+		sig, _ = n.info.TypeOf(c.lit).(*types.Signature)
+	}
+	if sig == nil {
+		return nil, nil, "callee without signature"
+	}
 	nres := sig.Results().Len()
 	// context
 	const (
@@ -910,8 +930,10 @@ func (n *pkgNorm) inlineSite(call *ast.CallExpr, c *callee) ([]edit, ast.Stmt, s
 	if caller == nil {
 		return nil, nil, "call outside a function declaration"
 	}
-	if why := n.scopeCompatible(c, call, caller); why != "" {
-		return nil, nil, why
+	if c.lit == nil {
+		if why := n.scopeCompatible(c, call, caller); why != "" {
+			return nil, nil, why
+		}
 	}
 	n.counter++
 	sfx := fmt.Sprintf("_i%d", n.counter)
@@ -949,14 +971,46 @@ func (n *pkgNorm) inlineSite(call *ast.CallExpr, c *callee) ([]edit, ast.Stmt, s
 		} else {
 			fmt.Fprintf(&binds, "_ = %s; ", xtext)
 		}
-	} else if _, ok := ast.Unparen(call.Fun).(*ast.Ident); !ok {
+	} else if _, ok := ast.Unparen(call.Fun).(*ast.Ident); !ok && c.lit == nil {
 		return nil, nil, "function called through a qualified name"
 	}
 	if call.Ellipsis.IsValid() {
 		return nil, nil, "spread call"
 	}
+	// locals of the callee whose names also occur in a function-valued argument (a literal's captured
+	// variables, a method value's operand) are renamed, so that the argument can be moved into the body
+	{
+		argNames := map[string]bool{}
+		for _, a := range call.Args {
+			switch ast.Unparen(a).(type) {
+			case *ast.FuncLit, *ast.SelectorExpr:
+				ast.Inspect(a, func(x ast.Node) bool {
+					if id, ok := x.(*ast.Ident); ok {
+						argNames[id.Name] = true
+					}
+					return true
+				})
+			}
+		}
+		if len(argNames) > 0 {
+			ast.Inspect(c.decl.Body, func(x ast.Node) bool {
+				id, ok := x.(*ast.Ident)
+				if !ok || !argNames[id.Name] {
+					return true
+				}
+				if obj := n.info.Defs[id]; obj != nil {
+					if v, isVar := obj.(*types.Var); isVar && !v.IsField() {
+						rename[obj] = id.Name + "_l" + sfx[2:]
+					}
+				}
+				return true
+			})
+		}
+	}
 	// parameters
 	ai := 0
+	var litSubst []*litSub
+	var funcSubst []*funcSub
 	if c.decl.Type.Params != nil {
 		total := 0
 		for _, p := range c.decl.Type.Params.List {
@@ -982,6 +1036,16 @@ func (n *pkgNorm) inlineSite(call *ast.CallExpr, c *callee) ([]edit, ast.Stmt, s
 				if id == nil || id.Name == "_" {
 					fmt.Fprintf(&binds, "var _ %s = %s; ", ptype, atext)
 					continue
+				}
+				if ls := n.litSubstitution(c, n.info.Defs[id], arg, rename); ls != nil {
+					litSubst = append(litSubst, ls)
+					continue
+				}
+				if fs, keepBinding := n.funcArgSubst(c, n.info.Defs[id], arg, rename); fs != nil {
+					funcSubst = append(funcSubst, fs)
+					if !keepBinding {
+						continue
+					}
 				}
 				name := id.Name + sfx
 				rename[n.info.Defs[id]] = name
@@ -1025,7 +1089,7 @@ func (n *pkgNorm) inlineSite(call *ast.CallExpr, c *callee) ([]edit, ast.Stmt, s
 	})
 	// ---- body
 	label := "_inl" + sfx
-	rb, why := n.renderBody(c, call, rename, temps, label, sfx)
+	rb, why := n.renderBody(c, call, rename, temps, label, sfx, litSubst, funcSubst)
 	if why != "" {
 		return nil, nil, why
 	}
@@ -1129,6 +1193,274 @@ func (n *pkgNorm) renderRange(root ast.Node, rename map[types.Object]string, ext
 	return out.String()
 }
 
+// litSub is a function-literal argument that can be substituted into the callee: the literal is
+// `func(ps) T { return expr }`, the parameter is only ever called, and always with plain identifiers.
+type litSub struct {
+	expr   ast.Expr
+	params []types.Object
+	calls  []*ast.CallExpr
+}
+
+func (n *pkgNorm) litSubstitution(c *callee, param types.Object, arg ast.Expr, rename map[types.Object]string) *litSub {
+	lit, ok := ast.Unparen(arg).(*ast.FuncLit)
+	if !ok || param == nil || len(lit.Body.List) != 1 {
+		return nil
+	}
+	ret, ok := lit.Body.List[0].(*ast.ReturnStmt)
+	if !ok || len(ret.Results) != 1 {
+		return nil
+	}
+	ls := &litSub{expr: ret.Results[0]}
+	if lit.Type.Params != nil {
+		for _, f := range lit.Type.Params.List {
+			for _, id := range f.Names {
+				ls.params = append(ls.params, n.info.Defs[id])
+			}
+			if len(f.Names) == 0 {
+				return nil
+			}
+		}
+	}
+	// every use of the parameter in the callee is a direct call with identifier arguments
+	bad := false
+	ast.Inspect(c.decl.Body, func(x ast.Node) bool {
+		id, ok := x.(*ast.Ident)
+		if !ok || n.info.Uses[id] != param {
+			return true
+		}
+		pc, ok := n.parents[id].(*ast.CallExpr)
+		if !ok || pc.Fun != ast.Expr(id) || len(pc.Args) != len(ls.params) || pc.Ellipsis.IsValid() {
+			bad = true
+			return false
+		}
+		for _, a := range pc.Args {
+			if _, isID := a.(*ast.Ident); !isID {
+				bad = true
+			}
+		}
+		ls.calls = append(ls.calls, pc)
+		return true
+	})
+	if bad || len(ls.calls) == 0 {
+		return nil
+	}
+	// the expression's free identifiers must not be captured by names the callee declares
+	declared := map[string]bool{}
+	ast.Inspect(c.decl.Body, func(x ast.Node) bool {
+		if id, ok := x.(*ast.Ident); ok && n.info.Defs[id] != nil {
+			if _, renamed := rename[n.info.Defs[id]]; !renamed {
+				declared[id.Name] = true
+			}
+		}
+		return true
+	})
+	isLitParam := func(o types.Object) bool {
+		for _, p := range ls.params {
+			if p == o {
+				return true
+			}
+		}
+		return false
+	}
+	ast.Inspect(ls.expr, func(x ast.Node) bool {
+		if _, isLit := x.(*ast.FuncLit); isLit {
+			bad = true
+			return false
+		}
+		id, ok := x.(*ast.Ident)
+		if !ok {
+			return true
+		}
+		o := n.info.Uses[id]
+		if o == nil || isLitParam(o) {
+			return true
+		}
+		if v, isVar := o.(*types.Var); isVar && v.IsField() {
+			return true
+		}
+		if declared[id.Name] {
+			bad = true
+		}
+		return true
+	})
+	if bad {
+		return nil
+	}
+	return ls
+}
+
+// funcSub is the substitution of a function-typed parameter by its argument (see renderBody).
+type funcSub struct {
+	text       string       // what a call of the parameter calls instead
+	nonNil     bool         // the argument is not nil
+	callIdents []*ast.Ident // the parameter in call position
+	nilTests   []*ast.BinaryExpr
+}
+
+// funcArgSubst decides whether the parameter can be replaced by its argument everywhere in the callee: the
+// argument is a function literal, a method value on a stable operand, a function name or nil, and the parameter
+// is only called or compared with nil. keepBinding says that the parameter must still be bound (nil argument).
+func (n *pkgNorm) funcArgSubst(c *callee, param types.Object, arg ast.Expr, rename map[types.Object]string) (*funcSub, bool) {
+	if param == nil {
+		return nil, false
+	}
+	if _, ok := param.Type().Underlying().(*types.Signature); !ok {
+		return nil, false
+	}
+	fs := &funcSub{}
+	a := ast.Unparen(arg)
+	isNil := false
+	switch x := a.(type) {
+	case *ast.FuncLit:
+		fs.nonNil = true
+		fs.text = "((" + n.lineDir(x.Pos()) + n.text(x.Pos(), x.End()) + "))"
+	case *ast.Ident:
+		if x.Name == "nil" {
+			if _, isNilObj := n.info.Uses[x].(*types.Nil); isNilObj {
+				isNil = true
+				break
+			}
+		}
+		if _, isFn := n.info.Uses[x].(*types.Func); !isFn {
+			return nil, false
+		}
+		fs.nonNil = true
+		fs.text = n.lineDir(x.Pos()) + x.Name
+	case *ast.SelectorExpr:
+		sel := n.info.Selections[x]
+		if sel == nil || sel.Kind() != types.MethodVal {
+			if _, isFn := n.info.Uses[x.Sel].(*types.Func); !isFn {
+				return nil, false
+			}
+		} else if _, isPtr := sel.Recv().Underlying().(*types.Pointer); !isPtr {
+			// a method value on an addressable non-pointer operand binds its address: the operand must be a path over identifiers
+			ok := true
+			ast.Inspect(x.X, func(z ast.Node) bool {
+				switch z.(type) {
+				case *ast.Ident, *ast.SelectorExpr, *ast.ParenExpr:
+				default:
+					if z != nil {
+						ok = false
+					}
+				}
+				return ok
+			})
+			if !ok || !sel.Indirect() && !isAddressablePath(x.X) {
+				return nil, false
+			}
+		}
+		fs.nonNil = true
+		fs.text = n.lineDir(x.Pos()) + n.text(x.Pos(), x.End())
+	default:
+		return nil, false
+	}
+	bad := false
+	ast.Inspect(c.decl.Body, func(x ast.Node) bool {
+		id, ok := x.(*ast.Ident)
+		if !ok || n.info.Uses[id] != param {
+			return true
+		}
+		switch p := n.parents[id].(type) {
+		case *ast.CallExpr:
+			if p.Fun == ast.Expr(id) {
+				fs.callIdents = append(fs.callIdents, id)
+				return true
+			}
+		case *ast.BinaryExpr:
+			other := p.Y
+			if p.Y == ast.Expr(id) {
+				other = p.X
+			}
+			if oid, isID := ast.Unparen(other).(*ast.Ident); isID && (p.Op == token.EQL || p.Op == token.NEQ) {
+				if _, isNilObj := n.info.Uses[oid].(*types.Nil); isNilObj {
+					fs.nilTests = append(fs.nilTests, p)
+					return true
+				}
+			}
+		}
+		bad = true
+		return false
+	})
+	if bad {
+		return nil, false
+	}
+	if isNil {
+		if len(fs.nilTests) == 0 {
+			return nil, false
+		}
+		fs.callIdents = nil // calls stay (they are behind the now-constant tests); the parameter stays bound to nil
+		return fs, true
+	}
+	if len(fs.callIdents) == 0 && len(fs.nilTests) == 0 {
+		return nil, false
+	}
+	// the argument's identifiers must not be captured by names the callee declares
+	declared := map[string]bool{}
+	ast.Inspect(c.decl.Body, func(x ast.Node) bool {
+		if id, ok := x.(*ast.Ident); ok && n.info.Defs[id] != nil {
+			if _, renamed := rename[n.info.Defs[id]]; !renamed {
+				declared[id.Name] = true
+			}
+		}
+		return true
+	})
+	ast.Inspect(a, func(x ast.Node) bool {
+		id, ok := x.(*ast.Ident)
+		if !ok {
+			return true
+		}
+		o := n.info.Uses[id]
+		if o == nil {
+			return true
+		}
+		if v, isVar := o.(*types.Var); isVar && v.IsField() {
+			return true
+		}
+		// identifiers declared inside the literal itself are its own
+		if lit, isLit := a.(*ast.FuncLit); isLit && lit.Pos() <= o.Pos() && o.Pos() < lit.End() {
+			return true
+		}
+		if declared[id.Name] {
+			bad = true
+		}
+		return true
+	})
+	if bad {
+		return nil, false
+	}
+	return fs, false
+}
+
+// isAddressablePath: identifiers and field selections only.
+func isAddressablePath(e ast.Expr) bool {
+	switch x := ast.Unparen(e).(type) {
+	case *ast.Ident:
+		return true
+	case *ast.SelectorExpr:
+		return isAddressablePath(x.X)
+	}
+	return false
+}
+
+// spliced copies [from,to) of the current source with the edits applied.
+func (n *pkgNorm) spliced(from, to token.Pos, edits []edit) string {
+	src := n.src[n.fileOf(from)]
+	a, b := n.offset(from), n.offset(to)
+	sort.Slice(edits, func(i, j int) bool { return edits[i].start < edits[j].start })
+	var out bytes.Buffer
+	pos := a
+	for _, e := range edits {
+		if e.start < pos || e.end > b {
+			continue
+		}
+		out.Write(src[pos:e.start])
+		out.WriteString(e.text)
+		pos = e.end
+	}
+	out.Write(src[pos:b])
+	return out.String()
+}
+
 // returnsOf lists the return statements of a body, literals excluded.
 func returnsOf(body ast.Node) []*ast.ReturnStmt {
 	var out []*ast.ReturnStmt
@@ -1147,10 +1479,54 @@ func returnsOf(body ast.Node) []*ast.ReturnStmt {
 // renderBody returns the callee's body text (without the outer braces) with
 // parameters, results and labels renamed, returns rewritten and deferred calls
 // moved behind the body.
-func (n *pkgNorm) renderBody(c *callee, call *ast.CallExpr, rename map[types.Object]string, temps []string, label, sfx string) (*renderedBody, string) {
+func (n *pkgNorm) renderBody(c *callee, call *ast.CallExpr, rename map[types.Object]string, temps []string, label, sfx string, litSubst []*litSub, funcSubst []*funcSub) (*renderedBody, string) {
 	body := c.decl.Body
 	rb := &renderedBody{}
 	var edits []edit
+	// a function-typed parameter whose argument is a literal, a method value or nil: its calls become calls of
+	// the argument (a literal is invoked in place, marked by doubled parentheses, and inlined in the next round),
+	// its comparisons with nil become constants
+	for _, fs := range funcSubst {
+		for _, id := range fs.callIdents {
+			edits = append(edits, edit{n.offset(id.Pos()), n.offset(id.End()), fs.text + n.lineDir(id.End())})
+		}
+		for _, cmp := range fs.nilTests {
+			val := "false"
+			if (cmp.Op == token.NEQ) == fs.nonNil {
+				val = "true"
+			}
+			edits = append(edits, edit{n.offset(cmp.Pos()), n.offset(cmp.End()), val})
+		}
+	}
+	// calls of a predicate parameter that was given as a one-expression literal become that expression
+	for _, ls := range litSubst {
+		for _, pc := range ls.calls {
+			expr := n.text(ls.expr.Pos(), ls.expr.End())
+			if len(ls.params) > 0 {
+				// the literal's parameters are replaced by the (identifier) arguments of this call, renamed like the rest of the body
+				var les []edit
+				ast.Inspect(ls.expr, func(x ast.Node) bool {
+					id, ok := x.(*ast.Ident)
+					if !ok {
+						return true
+					}
+					for k, po := range ls.params {
+						if n.info.Uses[id] == po && k < len(pc.Args) {
+							arg := pc.Args[k].(*ast.Ident)
+							txt := arg.Name
+							if nn, ok := n.renameOf(arg, rename); ok {
+								txt = nn
+							}
+							les = append(les, edit{n.offset(id.Pos()), n.offset(id.End()), txt})
+						}
+					}
+					return true
+				})
+				expr = n.spliced(ls.expr.Pos(), ls.expr.End(), les)
+			}
+			edits = append(edits, edit{n.offset(pc.Pos()), n.offset(pc.End()), "(" + n.lineDir(ls.expr.Pos()) + expr + n.lineDir(pc.End()) + ")"})
+		}
+	}
 	returns := returnsOf(body)
 	var defers []*ast.DeferStmt
 	ast.Inspect(body, func(x ast.Node) bool {
